@@ -627,6 +627,31 @@ Definition remove_diff_disk (g : cfg) (m : mem) (d : dname) : prog (mem * res) :
   e2 <- rm_disk (Some d) ;;
   Ret (m1, e2).
 
+(** replica.go: hardlinkDisk, ReplaceDisk (the coalesce path: [source]'s image takes the place of
+    [target]'s, then [source] leaves the chain) *)
+Definition hardlink_disk (target source : dname) : prog res :=
+  Do (CStat (Img source)) (fun r0 =>
+  if is_err r0 then Ret Refused else                          (* "Cannot find source of replacing" *)
+  Do (CStat (Img target)) (fun r1 =>
+  e <- (if is_err r1 then Ret Ok
+        else Do (CUnlink (Img target)) (fun r2 => if is_err r2 then Ret Failed else Ret Ok)) ;;
+  if negb (is_ok e) then Ret e else
+  Do (CLink (Img source) (Img target)) (fun r3 =>
+  if is_err r3 then Ret Failed else sync_dir))).
+
+Definition replace_disk (g : cfg) (m : mem) (target source : dname) : prog (mem * res) :=
+  if negb (mode_eqb (m_mode m) RW) then Ret (m, Refused) else
+  if odname_eqb (Some target) (i_head (m_info m)) then Ret (m, Refused) else
+  e0 <- hardlink_disk target source ;;
+  if negb (is_ok e0) then Ret (m, e0) else
+  t_ <- remove_disk_node g m source ;;
+  let '(m1, e1) := t_ in
+  if negb (is_ok e1) then Ret (m1, e1) else
+  e2 <- rm_disk (Some source) ;;
+  if negb (is_ok e2) then Abort Fatal else                    (* logrus.Fatalf *)
+  (* r.volume.UsedBlocks--; the file at the target's index is closed and opened again *)
+  Ret (m1, Ok).
+
 (** replica.go: markDiskAsRemoved, PrepareRemoveDisk.  Returns also the number of actions. *)
 Definition gen_snap_name (d : dname) : option dname :=
   match d with Odd k => Some (Snap k) | _ => None end.
@@ -886,6 +911,7 @@ Inductive op :=
 | OResize (sz : N)
 | OCheckpoint (c : option dname)
 | ORebuilding (b : bool)
+| OReplace (target source : dname)   (* Server.ReplaceDisk(target, source) *)
 | OCrashIn (k : nat) (o : op).       (* the process dies inside operation [o], after [k] of its calls *)
 
 (** Server.Status on an open replica *)
@@ -957,6 +983,7 @@ Definition op_prog (g : cfg) (om : option mem) (o : op) : prog (option mem * res
       | true, SRebuilding | false, SOpen | false, SDirty => Ret (Some m, Refused, O)
       | _, _ => lift (set_rebuilding g m b)
       end
+  | OReplace t src, Some m => lift (replace_disk g m t src)
   end.
 
 Record st := mkst { s_fs : fs; s_mem : option mem }.
